@@ -274,14 +274,18 @@ end Abra.Compile
 
 namespace Abra.Pending
 
-/-- **A `break`/`continue` pops exactly the operands pending since the loop body began**, and the F0 compile model
-    emits that many `Pop`s (`Abra.Compile.compS`, the code the simulation theorem is about). -/
+/-- The two models agree on the jump statements (both by definition): the depth model assigns `d` Pops to a
+    `break`/`continue` reached at depth `d`, and the F0 compile model `compS` emits `d` `Pop`s and the jump there.  That `d`
+    IS the number of operands on the stack is not this statement: for F0 it is what `C02_compile_correct_F0` shows, beyond
+    F0 it is checked by the harness tie (`pending …`) only. -/
 theorem C02_pending_jump_at_depth (d : Nat) (Γ : Abra.Compile.TEnv) (next : Nat) (il : Bool) :
     popsS d .brk = [d] ∧ popsS d .cont = [d] ∧
-    Abra.Compile.compS Γ next d il .break_ = some (List.replicate d .pop ++ [.jump .brk], .unit, Γ, next) :=
-  ⟨rfl, rfl, rfl⟩
+    Abra.Compile.compS Γ next d il .break_ = some (List.replicate d .pop ++ [.jump .brk], .unit, Γ, next) ∧
+    Abra.Compile.compS Γ next d il .continue_ = some (List.replicate d .pop ++ [.jump .cont], .unit, Γ, next) :=
+  ⟨rfl, rfl, rfl, rfl⟩
 
-/-- **The constant pushed by hand for unary minus is a pending operand** while the operand runs — for `int`
+/-- Clause of the depth model `Abra.Pending` (true by its definition; the model is tied to the real translator by the
+    harness, `pending …`). **The constant pushed by hand for unary minus is a pending operand** while the operand runs — for `int`
     (`PushInt 0`) and for `float` (`PushFloat -0.0`) alike (the line removed by seed C01-r3), and it adds up when
     negations nest. -/
 theorem C02_pending_neg_constant_counted (d n : Nat) (v : Bool) (e : PE) :
@@ -289,18 +293,21 @@ theorem C02_pending_neg_constant_counted (d n : Nat) (v : Bool) (e : PE) :
     popsE d (.pre 1 true (.pre 1 true (.block true (PSs.ofList [.brk])))) = [d + 2] :=
   ⟨by simp [popsE], by simp [popsE, popsSs, popsS, PSs.ofList]⟩
 
-/-- **Operands wait for the operands to their right**, void ones take no slot. -/
+/-- Clause of the depth model `Abra.Pending` (true by its definition; the model is tied to the real translator by the
+    harness, `pending …`). **Operands wait for the operands to their right**, void ones take no slot. -/
 theorem C02_pending_operands_wait (d : Nat) (v : Bool) (a b : PE) :
     popsE d (.seq v (PEs.ofList [a, b])) = popsE d a ++ popsE (if a.valued then d + 1 else d) b := by
   simp [popsE, popsArgs, PEs.ofList, bump]
 
-/-- **`a[i] op= e`**: array and index go straight into their temporaries — nothing is pending while the index
+/-- Clause of the depth model `Abra.Pending` (true by its definition; the model is tied to the real translator by the
+    harness, `pending …`). **`a[i] op= e`**: array and index go straight into their temporaries — nothing is pending while the index
     expression runs — and array, index and old element wait for the right-hand side. -/
 theorem C02_pending_compound_index (d : Nat) (a i rhs : PE) :
     popsS d (.compoundIndex a i rhs) = popsE d a ++ popsE d i ++ popsE (d + 3) rhs := by
   simp [popsS]
 
-/-- **A loop body starts a new count; the loop head still belongs to the enclosing loop.** -/
+/-- Clause of the depth model `Abra.Pending` (true by its definition; the model is tied to the real translator by the
+    harness, `pending …`). **A loop body starts a new count; the loop head still belongs to the enclosing loop.** -/
 theorem C02_pending_loop_resets (d : Nat) (c it : PE) (body : PSs) :
     popsS d (.while_ c body) = popsE d c ++ popsSs 0 body ∧ popsS d (.for_ it body) = popsE d it ++ popsSs 0 body := by
   simp [popsS]
